@@ -85,7 +85,37 @@ def plan(tier, seed):
 def minimums(tier):
     return {"dump.calls_checked": 3000, "dump.partitions_checked": 2500, "file.format_checks": 1500, "script.runs": 10,
             "workload.header_at_0": 30, "workload.no_headers": 100, "workload.six_headers": 50,
-            "workload.repeated_name": 100, "file.raw_text_column": 300}
+            "workload.repeated_name": 100, "file.raw_text_column": 300, "file.beyond_64k_checks": 10}
+
+
+def drive_big(ctx, dump, rng, hdr, sf, table, strings, root):
+    """a dump beyond 64 KiB whose second 64 KiB repeat rows of the first (memory that holds a stale copy): in the BMC format
+    the 4-digit address column wraps, so different rows of the dump are textually identical lines - all of them are data"""
+    CUR["table"], CUR["strings"] = table, strings
+    block = iogen.gen_dump(rng, table, strings)[:0x8000]
+    block += bytes(rng.randrange(256) for _ in range(64)) * ((0x10000 - len(block)) // 64 + 1)
+    block = block[:0x10000]
+    d = block + block[:rng.choice([0x10000, 0x4000, 0x230])] + bytes(rng.randrange(256) for _ in range(rng.randrange(40)))
+    try:
+        base = dump.parse_dump_data(memoryview(d), hdr, sf)
+    except Exception as e:
+        ctx.violation("C17/decoder-raised/" + type(e).__name__, "parse_dump_data raised %r on a %d-byte dump" % (e, len(d)))
+        return
+    for fmt, render in (("bmc", im.render_bmc), ("old", im.render_old)):
+        path = os.path.join(root, "bigdump_%s.txt" % fmt)
+        with open(path, "w", encoding="utf-8") as f:
+            f.write("\n".join(render(d)) + "\n")
+        ctx.count("file.beyond_64k_checks")
+        ctx.case("big" + fmt + str(len(d)) + d[:64].hex(), True)
+        try:
+            got = dump.parse_dump_file(path, hdr, sf)
+        except Exception as e:
+            ctx.violation("C17/decoder-raised/" + type(e).__name__, "parse_dump_file raised %r" % (e,))
+            continue
+        if list(got) != list(base):
+            ctx.violation("C17/file-vs-bytes/" + fmt, "parse_dump_file on the %s rendering of a %d-byte dump (rows repeat beyond 64 KiB) "
+                          "gives %d lines, parse_dump_data on the bytes gives %d" % (fmt, len(d), len(got), len(base)))
+        os.unlink(path)
 
 
 def drive(ctx, dump, rng, hdr, sf, table, strings, root, tag, k):
@@ -150,6 +180,8 @@ def run(spec, ctx):
             im.write_string_file(sf, strings, rng)
             for k in range(12):
                 drive(ctx, dump, rng, hdr, sf, iogen.model_table(table), iogen.model_strings(strings), root, "syn%d" % i, i * 12 + k)
+            if i % 12 == 1:
+                drive_big(ctx, dump, rng, hdr, sf, iogen.model_table(table), iogen.model_strings(strings), root)
         return
     if spec["mode"] == "shipped":
         dt = MEX_DRAWER_TYPE if spec["which"] == "mex" else NIMITZ_DRAWER_TYPE
